@@ -11,7 +11,8 @@ R_Names == {"a", "b", "p", "p2", "u", "c", "sol", "dil"}
 R_Shape == [a |-> <<0, 0>>, b |-> <<0, 0>>, p |-> <<2, 2>>, p2 |-> <<1, 2>>, u |-> <<0, 0>>, c |-> <<0, 0>>, sol |-> <<0, 0>>, dil |-> <<0, 0>>]
 R_Regions == [A1 |-> SL!Str("A", "1"), A2 |-> SL!Pair(SL!IntN(1), SL!IntN(2)), B1 |-> SL!Str("B", "1"),
               B2 |-> SL!Pair(SL!Lbl("B"), SL!IntN(2)), row1 |-> SL!IntN(1), row2 |-> SL!Lbl("B"),
-              col1 |-> SL!Pair(SL!All, SL!IntN(1)), plate |-> SL!All, all |-> SL!All]
+              col1 |-> SL!Pair(SL!All, SL!IntN(1)), plate |-> SL!All, all |-> SL!All,
+              narrowB |-> SL!Sub(SL!All, SL!PySl(1, -1, 2), SL!PyAll)]          \* plate[:][1::2] = row B
 R_ObjName == [a |-> "a", b |-> "b", p |-> "p", u |-> "u", a2 |-> "a"]
 R_DSets == <<{"*plates*"}, {"p"}, {"a"}, {"b"}, {"a", "b", "p"}, {"p", "c", "sol", "dil"}, {"p2"}>>
 
@@ -55,10 +56,10 @@ LIFE_Alphabet == <<
 (* PROG: programs over two containers, a non-uniform 2x2 plate and         *)
 (* recipe-created containers; every step kind; stage markers (C08,C09,C15) *)
 (***************************************************************************)
-PROG_Init == {[a |-> RCont(Inf, K4(I(8), Zero, I(2), Zero)), b |-> RCont(I(20), K4(Zero, I(2), Zero, I(3))),
+PROG_Init == {[a |-> RCont(Inf, K4(I(8), One, I(2), Zero)), b |-> RCont(I(20), K4(Zero, I(2), Zero, I(3))),
                p |-> [cap |-> I(10), w |-> <<MkWell(K4(I(4), Zero, Zero, Zero)), MkWell(K4(I(2), I(1), Zero, Zero)),
                                               MkWell(K4(Zero, Zero, I(1), I(2))), EmptyWell>>],
-               p2 |-> [cap |-> I(6), w |-> <<MkWell(K4(I(1), Zero, Zero, Zero)), EmptyWell>>],
+               p2 |-> [cap |-> I(6), w |-> <<EmptyWell, MkWell(K4(I(1), Zero, Zero, Zero))>>],      \* first well empty
                u |-> RCont(Inf, K4(I(4), Zero, Zero, Zero)), c |-> RCont(Inf, Empty), sol |-> RCont(Inf, Empty),
                dil |-> RCont(Inf, Empty)]}
 PROG_ObjName == [a |-> "a", b |-> "b", p |-> "p", p2 |-> "p2"]
@@ -68,6 +69,7 @@ PROG_Steps == <<
   Tr("p", "plate", "a", "-", R(1, 2), "L"),
   \* a second plate: plate -> plate (element-wise, one -> many), container -> second plate
   Tr("p", "row1", "p2", "all", One, "L"), Tr("p", "A1", "p2", "plate", R(1, 2), "L"), Tr("a", "-", "p2", "plate", One, "L"),
+  Tr("a", "-", "p", "narrowB", One, "L"), Rm("p", "narrowB", "E"),
   Rm("p", "plate", "W"), Rm("p", "row1", "liquid"), Rm("b", "-", "E"), Rm("a", "-", "solid"),
   Fl("p", "plate", "W", "L", I(6)), Fl("p", "row2", "W", "L", I(5)), Fl("b", "-", "W", "L", I(12)),
   Dl("a", "N", "mol", "L", "W", R(1, 10)), DlAs("a", "N", "mol", "L", "W", R(1, 12), "renamed"),
@@ -77,5 +79,5 @@ PROG_Steps == <<
 PROG_Alphabet == PROG_Steps \o <<Ss("s1"), Es("s1"), Ss("s2"), Bk>>
 \* a smaller alphabet for deep random walks
 PROG_Core == <<PROG_Steps[1], PROG_Steps[2], PROG_Steps[3], PROG_Steps[4], PROG_Steps[8], PROG_Steps[10], PROG_Steps[11], PROG_Steps[12],
-               PROG_Steps[15], PROG_Steps[17], PROG_Steps[20], PROG_Steps[21], PROG_Steps[23], PROG_Steps[25], Ss("s1"), Es("s1"), Ss("s2"), Es("s2"), Bk>>
+               PROG_Steps[13], PROG_Steps[14], PROG_Steps[17], PROG_Steps[19], PROG_Steps[22], PROG_Steps[23], PROG_Steps[25], PROG_Steps[27], Ss("s1"), Es("s1"), Ss("s2"), Es("s2"), Bk>>
 =============================================================================
